@@ -141,18 +141,22 @@ def build_tree(env, recipe):
 
 
 def owner_of(env, reg, chain_inner_first):
-    """chain: [(widget, size, focus)] innermost first.  -> (registered owner entry, blamed entry) or None.
-    blamed = innermost entry that is inside the statement's domain; owner = nearest entry at or outside
-    it that is a recipe-level widget and itself in the domain."""
+    """chain: [(widget, size, focus, qualname)] innermost first.  -> (registered owner entry, blamed entry, shift) or None.
+    blamed = innermost entry that is inside the statement's domain; owner = nearest entry at or outside it that is a
+    recipe-level widget and itself in the domain; shift = why the blame moved outwards from the innermost entry
+    ('size<1' / 'mode-not-reported': the failing widget had been handed a size outside the domain), else None."""
     blamed = None
+    shift = None
     for w, size, focus, qual in chain_inner_first:
-        ok, _ = env.m1.in_domain(w, size)
+        ok, why = env.m1.in_domain(w, size)
         if not ok:
+            if blamed is None and shift is None:
+                shift = why
             continue
         if blamed is None:
             blamed = (w, size, focus, qual)
         if id(w) in reg and reg[id(w)][2] is w:
-            return (w, size, focus, qual if blamed[0] is w else None), blamed
+            return (w, size, focus, qual if blamed[0] is w else None), blamed, shift
     return None
 
 
@@ -209,10 +213,16 @@ def evaluate(env, w, reg, size, focus):
             tbl = tbl.tb_next
         detail = tbl.tb_frame.f_code.co_name + ":" + re.sub(r"<.*>|\d+|'[^']*'", "#", str(exc))[:60]
         kind += "/" + tbl.tb_frame.f_code.co_name.strip("_<>")
+        if got is not None and got[2]:
+            # the widget that raised had been handed a size outside the domain (a dimension < 1, or a sizing mode it
+            # does not report): the mechanism is the blamed widget handing out that size, whatever the child raised
+            msg = f"(child handed an out-of-domain size: {got[2]}) " + msg
+            kind = f"hands-child:{got[2]}"
+            detail = got[2]
     if got is None:
         owner, blamed = (w, size, focus, None), (w, size, focus, None)
     else:
-        owner, blamed = got
+        owner, blamed = got[0], got[1]
     ow, osize, ofocus, oqual = owner
     path = reg[id(ow)][0] if id(ow) in reg else ()
     # the class named in the signature is the class whose method failed (Text for an Edit failing inside Text.render)
